@@ -36,16 +36,38 @@ fn c05_criteria_at() {
     assert!(got == if asc { base } else { base.reverse() },
             "OBL C05.criteria.at: numeric key -> numeric comparison, else date key -> chronological, else string; desc reverses");
 }
-// numeric keys compare by numeric value (10 > 9, and 16777217 > 16777216), string keys by the value's own order
+// numeric keys compare by numeric value (10 > 9, and 16777217 > 16777216); an expression value that is negative or fractional takes part
+// with its real value (-41 < -40 < 2.25 < 2.5 < 25); string keys by the value's own order
+fn any_key() -> (KVal, i128) {
+    if kani::any() {
+        let a: u64 = kani::any();
+        kani::assume(a < (1u64 << 53));            // sizes below 8 PiB: the range in which f64 is exact
+        (KVal::Size(a), a as i128 * 4)
+    } else {
+        let q: i32 = kani::any();
+        kani::assume(q < 0 || q % 4 != 0);          // not a size
+        (KVal::Real(q), q as i128)
+    }
+}
 #[kani::proof]
 #[kani::unwind(3)]
 fn c05_key_numeric() {
+    let (ka, va) = any_key(); let (kb, vb) = any_key();
+    let x = FragKey { values: vec![ka] };
+    let y = FragKey { values: vec![kb] };
+    kani::cover!(matches!((ka, kb), (KVal::Size(a), KVal::Size(b)) if a > (1u64 << 24) && b == a + 1));
+    kani::cover!(matches!((ka, kb), (KVal::Real(a), KVal::Real(b)) if a < 0 && b < 0 && a != b));
+    kani::cover!(matches!((ka, kb), (KVal::Real(_), KVal::Size(_))));
+    assert!(x.cmp_at_numbers(&y, 0) == va.cmp(&vb), "OBL C05.key.numeric: a numeric key compares by numeric value: sizes exactly, negative and fractional expression values as reals");
+}
+#[kani::proof]
+#[kani::unwind(3)]
+fn c05_key_direct() {
     let a: u64 = kani::any(); let b: u64 = kani::any();
-    let x = FragKey { values: vec![KVal(a)] };
-    let y = FragKey { values: vec![KVal(b)] };
-    kani::cover!(a > (1u64 << 24) && a < u64::MAX && b == a + 1);
-    assert!(x.cmp_at_numbers(&y, 0) == a.cmp(&b), "OBL C05.key.numeric: a numeric key compares by exact numeric value, for all u64 values");
-    assert!(x.cmp_at_direct(&y, 0) == KVal(a).cmp(&KVal(b)), "OBL C05.key.direct: any other key compares by the value's own order");
+    let x = FragKey { values: vec![KVal::Size(a)] };
+    let y = FragKey { values: vec![KVal::Size(b)] };
+    kani::cover!(a != b);
+    assert!(x.cmp_at_direct(&y, 0) == KVal::Size(a).cmp(&KVal::Size(b)), "OBL C05.key.direct: any other key compares by the value's own order");
 }
 #[kani::proof]
 #[kani::unwind(3)]
